@@ -25,6 +25,7 @@ Theorem citems_pgain Pc Ph l off ts ds : citems Pc Ph l off ts ds -> pgain ts 0.
 Proof.
   induction 1 as [off|off s r ds Hs Hr IH
                  |off kw words cond o body c r ds1 ds2 Hkw Hwords Hcond HPc Ho Hc Hb IHb Hr IHr
+                 |off o body c r ds1 ds2 Ho Hc Hb IHb Hr IHr
                  |off pre o flat c post semi r ds Hpre Ho Hflat Hc Hpost Hsemi Hr IH
                  |off a tail o body c post semi r ds1 ds2 Hjs Hane Hop Hlast Htail Ho Hc Hpost Hsemi Hb IHb Hr IHr
                  |off pre kn nm gs o body c post semi r ds1 ds2 Hl Hpre Hkn Hnm Hgs Ho Hc Hb IHb Hpost Hsemi Hr IHr
@@ -36,6 +37,8 @@ Proof.
     apply pgain_app0; [apply pgain_words; exact Hwords|].
     apply pgain_app0; [destruct Hcond as [->|[Hg _]]; [apply pgain_nil | apply pgain_groups; exact Hg]|].
     apply pgain_tok; [apply lbrace_noparen; exact Ho|].
+    apply pgain_app0; [exact IHb|]. apply pgain_tok; [apply rbrace_noparen; exact Hc | exact IHr].
+  - apply pgain_tok; [apply lbrace_noparen; exact Ho|].
     apply pgain_app0; [exact IHb|]. apply pgain_tok; [apply rbrace_noparen; exact Hc | exact IHr].
   - apply pgain_app0; [apply pgain_plains; exact Hpre|].
     apply pgain_tok; [apply lbrace_noparen; exact Ho|].
@@ -137,6 +140,21 @@ Section OneSelection.
     { apply (Seg_none c f Hc Hf). apply (o_ctrl _ _ _ _ G); assumption. }
     replace (off + length (kw :: words ++ cond ++ [o])) with (off + 1 + length words + length cond + 1) by (norm_len; lia).
     apply Seg_app; [exact Hb|].
+    apply Seg_app; [eapply seg_symbol; exact Hcl|].
+    cbn [length]. exact Hr.
+  Qed.
+
+  Lemma seg_block off o body cl r B hb hr :
+    is_lbrace o = true -> is_rbrace cl = true ->
+    Seg c f (off + 1) body (([cl] ++ r) ++ B) hb ->
+    Seg c f (off + 1 + length body + 1) r B hr ->
+    Seg c f off (o :: body ++ cl :: r) B (hb ++ hr).
+  Proof.
+    intros Ho Hcl Hb Hr.
+    change (o :: body ++ cl :: r) with ([o] ++ body ++ [cl] ++ r).
+    change (hb ++ hr) with ([] ++ hb ++ [] ++ hr).
+    apply Seg_app; [eapply seg_symbol; exact Ho|].
+    cbn [length]. apply Seg_app; [exact Hb|].
     apply Seg_app; [eapply seg_symbol; exact Hcl|].
     cbn [length]. exact Hr.
   Qed.
@@ -315,6 +333,7 @@ Section TwoSelections.
   Proof.
     induction 1 as [off|off s r ds Hs Hr IH
                    |off kw words cond o body c r ds1 ds2 Hkw Hwords Hcond HPc Ho Hc Hb IHb Hr IHr
+                   |off o body c r ds1 ds2 Ho Hc Hb IHb Hr IHr
                    |off pre o flat c post semi r ds Hpre Ho Hflat Hc Hpost Hsemi Hr IH
                    |off a tail o body c post semi r ds1 ds2 Hjs Hane Hop Hlast Htail Ho Hc Hpost Hsemi Hb IHb Hr IHr
                    |off pre kn nm gs o body c post semi r ds1 ds2 Hl Hpre Hkn Hnm Hgs Ho Hc Hb IHb Hpost Hsemi Hr IHr
@@ -338,6 +357,18 @@ Section TwoSelections.
           eapply (newhdrs_ctx off _ _ body _ xb); [|exact HXb]; norm_len; lia.
         * replace (kw :: words ++ cond ++ o :: body ++ c :: r) with ((kw :: words ++ cond ++ o :: body ++ [c]) ++ r ++ [])
             by (rewrite app_nil_r; norm_app; reflexivity).
+          eapply (newhdrs_ctx off _ _ r _ xr); [|exact HXr]; norm_len; lia.
+      + destruct HLb as [HLb| ->]; [left; exact HLb|]. destruct HLr as [HLr| ->]; [left; exact HLr | right; reflexivity].
+    - destruct (IHb (([c] ++ r) ++ B)) as (b1 & b2 & xb & Sb1 & Sb2 & HPb & HXb & HLb).
+      destruct (IHr B) as (r1 & r2 & xr & Sr1 & Sr2 & HPr & HXr & HLr).
+      exists (b1 ++ r1), (b2 ++ r2), (xb ++ xr). split; [|split; [|split; [|split]]].
+      + apply (seg_block Pc l c1 f1 G1); assumption.
+      + apply (seg_block Pc l c2 f2 G2); assumption.
+      + rewrite map_app. apply perm2; assumption.
+      + apply Forall_app. split.
+        * replace (o :: body ++ c :: r) with ([o] ++ body ++ (c :: r)) by reflexivity.
+          eapply (newhdrs_ctx off _ _ body _ xb); [|exact HXb]; norm_len; lia.
+        * replace (o :: body ++ c :: r) with ((o :: body ++ [c]) ++ r ++ []) by (rewrite app_nil_r; norm_app; reflexivity).
           eapply (newhdrs_ctx off _ _ r _ xr); [|exact HXr]; norm_len; lia.
       + destruct HLb as [HLb| ->]; [left; exact HLb|]. destruct HLr as [HLr| ->]; [left; exact HLr | right; reflexivity].
     - destruct (IH B) as (h1 & h2 & xs & S1 & S2 & HP & HX & HL). exists h1, h2, xs.
@@ -612,7 +643,7 @@ Proof.
   assert (Hne : pre <> []) by (rewrite E; discriminate).
   destruct (exists_last Hne) as (pre' & p & ->). rewrite app_assoc. apply last_ok_snoc.
   rewrite forallb_app in Hpre. apply andb_prop in Hpre as [_ Hp]. cbn [forallb] in Hp. rewrite andb_true_r in Hp.
-  apply prefix_word_inv in Hp as (_ & _ & _ & H4 & H5 & _). unfold drop_tok. rewrite H4, H5. reflexivity.
+  apply prefix_word_inv in Hp as (_ & _ & H4 & H5 & _). unfold drop_tok. rewrite H4, H5. reflexivity.
 Qed.
 
 Lemma java_drop_last_ok Q R n e : last_ok Q -> java_drop (Q ++ R) (mkHeader n (length Q) e) = false.
@@ -631,6 +662,7 @@ Theorem citems_no_drop Pc Ph l off ts ds : citems Pc Ph l off ts ds ->
 Proof.
   induction 1 as [off|off s r ds Hs Hr IH
                  |off kw words cond o body c r ds1 ds2 Hkw Hwords Hcond Hnt Ho Hc Hb IHb Hr IHr
+                 |off o body c r ds1 ds2 Ho Hc Hb IHb Hr IHr
                  |off pre o flat c post semi r ds Hpre Ho Hflat Hc Hpost Hsemi Hr IH
                  |off a tail o body c post semi r ds1 ds2 Hjs Hane Hop Hlast Htail Ho Hc Hpost Hsemi Hb IHb Hr IHr
                  |off pre kn nm gs o body c post semi r ds1 ds2 Hl Hpre Hkn Hnm Hgs Ho Hc Hb IHb Hpost Hsemi Hr IHr
@@ -650,6 +682,13 @@ Proof.
         with ((P ++ kw :: words ++ cond ++ o :: body ++ [c]) ++ r ++ B) by (norm_app; reflexivity).
       apply IHr; [norm_len; lia|].
       replace (P ++ kw :: words ++ cond ++ o :: body ++ [c]) with ((P ++ kw :: words ++ cond ++ o :: body) ++ [c]) by (norm_app; reflexivity).
+      apply last_ok_snoc. eapply symbol_no_drop; exact Hc.
+  - apply Forall_app. split.
+    + replace (P ++ (o :: body ++ c :: r) ++ B) with ((P ++ [o]) ++ body ++ (c :: r ++ B)) by (norm_app; reflexivity).
+      apply IHb; [norm_len; lia|]. apply last_ok_snoc. eapply symbol_no_drop; exact Ho.
+    + replace (P ++ (o :: body ++ c :: r) ++ B) with ((P ++ o :: body ++ [c]) ++ r ++ B) by (norm_app; reflexivity).
+      apply IHr; [norm_len; lia|].
+      replace (P ++ o :: body ++ [c]) with ((P ++ o :: body) ++ [c]) by (norm_app; reflexivity).
       apply last_ok_snoc. eapply symbol_no_drop; exact Hc.
   - replace (P ++ (pre ++ o :: flat ++ c :: post ++ semi :: r) ++ B)
       with ((P ++ pre ++ o :: flat ++ c :: post ++ [semi]) ++ r ++ B) by (norm_app; reflexivity).
